@@ -196,6 +196,15 @@ type Explorer struct {
 	Budgeted   bool
 	Trace      bool
 	WitnessTapes [][]TapeEntry
+	InitFaults   int // package initialisations that died with an interpreter fault (taints every result)
+}
+
+func (ex *Explorer) initFault(msg string) {
+	ex.mu.Lock()
+	ex.InitFaults++
+	ex.Msgs["engine: "+msg]++
+	ex.Outcomes["engine"]++
+	ex.mu.Unlock()
 }
 
 func (ex *Explorer) buildPkg(p *ssa.Package) {
@@ -852,6 +861,7 @@ func (i *Interp) reach(name string) {
 type Summary struct {
 	Harness     string         `json:"harness"`
 	Verdict     string         `json:"verdict"` // holds | violation | inconclusive | vacuous
+	InitFaults  int            `json:"init_faults,omitempty"`
 	Paths       int            `json:"paths"`
 	Outcomes    map[string]int `json:"outcomes"`
 	Decisions   int            `json:"decisions"`
@@ -895,7 +905,10 @@ func (ex *Explorer) Summary(wall time.Duration) *Summary {
 	}
 	incon := ex.Outcomes["unsupported"]+ex.Outcomes["unwind"]+ex.Outcomes["steps"]+ex.Outcomes["engine"] > 0 ||
 		len(ex.AssertsUnk) > 0 || len(ex.Stats.Errors) > 0 || ex.TimedOut || ex.Budgeted
+	s.InitFaults = ex.InitFaults
 	switch {
+	case ex.InitFaults > 0:
+		s.Verdict = "inconclusive"
 	case len(ex.Violations) > 0:
 		s.Verdict = "violation"
 	case incon:
